@@ -309,7 +309,7 @@ PROPS["C20"] = {
     },
 }
 
-ALL_DESIGNS = ["v1", "v2", "v3", "v4", "v5", "v6", "v7", "d1", "a1", "a2", "a3", "a4", "a5", "e1", "e2", "e3", "s1", "s2", "s3", "w1", "w2", "w3", "p1", "c1", "c2", "c3", "c4", "c5", "c6", "c7", "c8", "c9", "c10", "a6", "a7"]
+ALL_DESIGNS = ["v1", "v2", "v3", "v4", "v5", "v6", "v7", "d1", "a1", "a2", "a3", "a4", "a5", "e1", "e2", "e3", "s1", "s2", "s3", "w1", "w2", "w3", "p1", "c1", "c2", "c3", "c4", "c5", "c6", "c7", "c8", "c9", "c10", "c11", "a6", "a7"]
 
 PROPS["C01"] = {
     "level": "other",
